@@ -165,9 +165,11 @@ pub fn plan(property: &str, tier: Tier) -> Option<Plan> {
             jobs.push(g("c01/grammar1", "rel", if q { 6 } else { 8 }).armed(&a));
             jobs.push(g(if q { "c01/grammar2-repr" } else { "c01/grammar2" }, "rel", if q { 5 } else { 6 }).armed(&a));
             jobs.push(g("c01/reobserve", "rel", if q { 8 } else { 10 }).armed(&a));
-            jobs.push(g("c01/reobserve2", "rel", if q { 9 } else { 10 }).armed(&a));
+            jobs.push(g("c01/reobserve2", "rel", if q { 8 } else { 10 }).armed(&a));
             jobs.push(g("c01/catalogue", "dbg", if q { 5 } else { 7 }).armed(&a));
             jobs.push(g("shapes/binds", "rel", if q { 5 } else { 7 }).armed(&a));
+            jobs.push(g("shapes/fanout", "rel", if q { 6 } else { 8 }).armed(&a));
+            jobs.push(g("shapes/xp", "rel", if q { 6 } else { 8 }).armed(&a));
             if !q {
                 jobs.push(g("c01/grammar3-maps", "rel", 5).armed(&a));
                 jobs.push(g("c01/grammar3-binds", "rel", 5).armed(&a));
@@ -186,6 +188,8 @@ pub fn plan(property: &str, tier: Tier) -> Option<Plan> {
             jobs.push(g("c01/grammar1", "rel", if q { 6 } else { 8 }).armed(&a));
             jobs.push(g(if q { "c01/grammar2-repr" } else { "c01/grammar2" }, "rel", if q { 5 } else { 6 }).armed(&a));
             jobs.push(g("c03/inner", "rel", if q { 4 } else { 6 }).armed(&a));
+            jobs.push(g("shapes/fanout", "rel", if q { 6 } else { 8 }).armed(&a));
+            jobs.push(g("shapes/xp", "rel", if q { 6 } else { 8 }).armed(&a));
             jobs.push(g("c01/catalogue", "dbg", if q { 5 } else { 7 }).armed(&a));
             ("model_checking", mc_rule, vec!["value domain {0,1,2}", "programs of <= 7 nodes", "internal recompute schedules reached through observe / un-observe orders of <= 2-3 observers"], if q { 60 } else { 1500 })
         }
@@ -221,6 +225,9 @@ pub fn plan(property: &str, tier: Tier) -> Option<Plan> {
                 jobs.push(g("c11/on_update", prof, if q { 4 } else { 6 }).armed(&a));
                 jobs.push(g("c11/drop_handles", prof, if q { 5 } else { 7 }).armed(&a));
                 jobs.push(g("c05/drop_handles", prof, if q { 6 } else { 8 }).armed(&a));
+                jobs.push(g("shapes/fanout", prof, if q { 6 } else { 9 }).armed(&a));
+                jobs.push(g("shapes/xp", prof, if q { 6 } else { 8 }).armed(&a));
+                jobs.push(g("shapes/xp-writes", prof, if q { 5 } else { 7 }).armed(&a));
             }
             ("model_checking", mc_rule, vec!["only well-formed histories are generated (no nested stabilise, no cycles, default height limit, one state, closures own no observers)", "both debug-assertion configurations, same bounds"], if q { 60 } else { 1500 })
         }
@@ -236,6 +243,8 @@ pub fn plan(property: &str, tier: Tier) -> Option<Plan> {
             jobs.push(g("c01/catalogue", "rel", if q { 6 } else { 8 }).armed(&a));
             jobs.push(g(if q { "c01/grammar2-repr" } else { "c01/grammar2" }, "rel", if q { 5 } else { 6 }).armed(&a));
             jobs.push(g("c03/inner", "rel", if q { 4 } else { 6 }).armed(&a));
+            jobs.push(g("shapes/fanout", "rel", if q { 6 } else { 8 }).armed(&a));
+            jobs.push(g("shapes/xp", "rel", if q { 6 } else { 8 }).armed(&a));
             jobs.push(g("c05/clones", "dbg", if q { 5 } else { 7 }).armed(&a));
             ("model_checking", mc_rule, vec!["dependency cone computed syntactically by the harness from the program and the reference's current bind right-hand sides"], if q { 60 } else { 1500 })
         }
@@ -260,6 +269,11 @@ pub fn plan(property: &str, tier: Tier) -> Option<Plan> {
             jobs.push(g("c01/grammar1", "rel", if q { 6 } else { 8 }).armed(&a));
             jobs.push(g("c09/subs", "rel", if q { 5 } else { 7 }).armed(&a));
             jobs.push(g("c07/reads", "dbg", if q { 5 } else { 7 }).armed(&a));
+            // expert nodes: reads and variable writes from observability callbacks (run while observers are linked at
+            // the start of stabilise, or in mid-propagation when a bind switches), edge callbacks, recompute functions
+            jobs.push(g("shapes/xp", "rel", if q { 7 } else { 9 }).armed(&a));
+            jobs.push(g("shapes/xp-writes", "rel", if q { 7 } else { 9 }).armed(&a));
+            jobs.push(g("shapes/xp-writes", "dbg", if q { 6 } else { 8 }).armed(&a));
             ("model_checking", mc_rule, vec!["reads are issued after every action on every handle, and from inside every node function / handler in family c07/reads"], if q { 60 } else { 1500 })
         }
         "C09" => {
@@ -316,6 +330,9 @@ pub fn plan(property: &str, tier: Tier) -> Option<Plan> {
             j.split_first = true;
             jobs.push(j);
             jobs.push(g("shapes/binds", "rel", if q { 5 } else { 7 }).armed(&a));
+            jobs.push(g("shapes/fanout", "rel", if q { 6 } else { 8 }).armed(&a));
+            jobs.push(g("shapes/fanout", "dbg", if q { 5 } else { 7 }).armed(&a));
+            jobs.push(g("shapes/xp", "rel", if q { 6 } else { 8 }).armed(&a));
             // the same audit after every action of the expert / incremental-map / variable worlds
             jobs.push(JobDef::new("expert", "all", "rel", if q { 7 } else { 9 }).armed(&a));
             jobs.push(JobDef::new("expert", "all", "dbg", if q { 6 } else { 8 }).armed(&a));
@@ -373,7 +390,7 @@ pub fn plan(property: &str, tier: Tier) -> Option<Plan> {
                 j.max_states = 20_000_000;
                 jobs.push(j);
             }
-            ("model_checking", "16 graph shapes x 3 initial conditions: ALL permutations of dropping the user handles and the state, with a stabilise inserted or not after each drop (unpruned enumeration, E1); leak oracles at the two moments the property names", vec!["<= 5 droppable handles per shape (thorough: 6-7)", "leaks are detected through drop flags in closures, a counted value type and WeakIncr::strong_count"], if q { 60 } else { 1500 })
+            ("model_checking", "18 graph shapes x 3 initial conditions: ALL permutations of dropping the user handles and the state, with a stabilise inserted or not after each drop (unpruned enumeration, E1); leak oracles at the two moments the property names", vec!["<= 5 droppable handles per shape (thorough: 6-7)", "leaks are detected through drop flags in closures, a counted value type and WeakIncr::strong_count"], if q { 60 } else { 1500 })
         }
         "C15" | "C17" => {
             let me: &'static str = if property == "C15" { "C15" } else { "C17" };
